@@ -4,6 +4,9 @@ fn main() {
     match ctx.id.as_str() {
         "C06" => vp_buf::c06::run(&mut ctx),
         "C10" => vp_buf::c10::run(&mut ctx),
+        "C12" => vp_buf::c12::run(&mut ctx),
+        "C13" => vp_buf::c13::run(&mut ctx),
+        "C14" => vp_buf::c14::run(&mut ctx),
         other => {
             eprintln!("vp_buf: unknown property {}", other);
             std::process::exit(2);
